@@ -133,6 +133,18 @@ class FnTranslator:
         if isinstance(e, ast.Tuple):
             vals = [self.expr(x, env) for x in e.elts]
             return Val("(" + ", ".join(v.code for v in vals) + ")", "T:" + ",".join(v.kind for v in vals))
+        if isinstance(e, ast.IfExp):
+            c, a, b = self.expr(e.test, env), self.expr(e.body, env), self.expr(e.orelse, env)
+            if c.kind != "B":
+                raise Unsupported("conditional expression on non-bool")
+            if a.kind != b.kind:
+                if {a.kind, b.kind} <= {"N", "Z"}:
+                    a, b = self.coerce(a, "Z"), self.coerce(b, "Z")
+                elif "R" in (a.kind, b.kind):
+                    a, b = self.to_real(a), self.to_real(b)
+                else:
+                    raise Unsupported("conditional expression with branches of different kinds")
+            return Val(f"(if {c.code} then {a.code} else {b.code})", a.kind)
         raise Unsupported(f"line {getattr(e, 'lineno', '?')}: expression {type(e).__name__}")
 
     LT_ALL = {"R": "α", "N": "Nat", "Z": "Int", "B": "Bool", "LR": "List α", "LZ": "List Int", "A": "Arr α", "A2": "Arr2 α", "IA": "Arr Nat"}
@@ -595,6 +607,8 @@ class FnTranslator:
         if len(s.iter.args) != 1:
             raise Unsupported(f"line {s.lineno}: range with start/step")
         n = self.expr(s.iter.args[0], env)
+        if n.kind == "Z":
+            n = Val(f"(Int.toNat {n.code})", "N")      # range(k) of a negative int is empty, as Int.toNat
         if n.kind != "N":
             raise Unsupported("range bound kind")
         return s.target.id, n.code, fn != "range"
@@ -605,6 +619,10 @@ class FnTranslator:
         inner = env.copy()
         inner.kinds[var] = "N"
         assigned = self.assigned_names(s.body)
+        for st_ in ast.walk(ast.Module(body=s.body, type_ignores=[])):
+            if (isinstance(st_, ast.Call) and isinstance(st_.func, ast.Attribute) and st_.func.attr == "append"
+                    and isinstance(st_.func.value, ast.Name) and st_.func.value.id not in assigned):
+                assigned.append(st_.func.value.id)
         carried = sorted(n for n in assigned if n in env.kinds)
         stored_existing = []
         for st_ in stores:
@@ -670,11 +688,11 @@ class FnTranslator:
         if not carried:
             raise Unsupported(f"line {s.lineno}: loop with no effect")
         for n in carried:
-            if env.kinds[n] not in ("R", "N", "Z", "A", "A2"):
+            if env.kinds[n] not in ("R", "N", "Z", "A", "A2", "LR", "LZ"):
                 raise Unsupported(f"line {s.lineno}: carried {n} of kind {env.kinds[n]}")
         self.tmp += 1
         st = f"st{self.tmp}"
-        tys = " × ".join({"R": "α", "N": "Nat", "Z": "Int", "A": "Arr α", "A2": "Arr2 α"}[env.kinds[n]] for n in carried)
+        tys = " × ".join(self.LT_ALL[env.kinds[n]] for n in carried)
         inner2 = inner.copy()
 
         def fin(e2: Env) -> str:
@@ -871,6 +889,53 @@ SCHED_SIGS = {
 SCHED_RETURNS = {"ltf_plan": ["f_arr", "fres_arr", "b_arr", "L_arr", "K_arr"], "new_ltf_plan": ["f", "r", "b", "L", "K"]}
 
 
+def _starts_function(fn: ast.FunctionDef) -> ast.FunctionDef:
+    """the per-bin start-position computation of ltf_plan as a function of (N, L_j, averages):
+    the body of the `for j in range(nf)` loop that contains `D_arr.append([])`, with the per-bin bookkeeping
+    (reading L_j / averages from the plan lists, recording navg) replaced by parameters and `D_arr[j]` by a local list.
+    Every statement that is not recognised bookkeeping is translated; an unrecognised shape is Unsupported."""
+    loop = None
+    for st in fn.body:
+        if isinstance(st, ast.For) and any(ast.unparse(b).strip() == "D_arr.append([])" for b in st.body):
+            loop = st
+    if loop is None or ast.unparse(loop.iter) != "range(nf)" or not isinstance(loop.target, ast.Name):
+        raise Unsupported("ltf_plan: start-position loop `for j in range(nf)` with D_arr.append([]) not found")
+    j = loop.target.id
+    bookkeeping = {f"L_j = int(L_arr[{j}])": None, f"L_arr[{j}] = L_j": None, f"averages = int(K_arr[{j}])": None,
+                   "navg_arr.append(averages)": None}
+    seen = set()
+    body: List[ast.stmt] = []
+    for st in loop.body:
+        txt = ast.unparse(st).strip()
+        if txt in bookkeeping:
+            seen.add(txt)
+            continue
+        if txt == "D_arr.append([])":
+            body.append(ast.parse("D = []").body[0])
+            continue
+        body.append(st)
+    if seen != set(bookkeeping):
+        raise Unsupported("ltf_plan: per-bin bookkeeping of the start-position loop changed: " + repr(sorted(set(bookkeeping) - seen)))
+
+    class Rw(ast.NodeTransformer):
+        def visit_Subscript(self, n):
+            if ast.unparse(n) == f"D_arr[{j}]":
+                return ast.copy_location(ast.Name(id="D", ctx=ast.Load()), n)
+            return self.generic_visit(n)
+
+        def visit_Name(self, n):
+            if n.id in ("D_arr", "L_arr", "K_arr", "navg_arr", j):
+                raise Unsupported(f"ltf_plan: start-position loop uses {n.id} outside the recognised bookkeeping (line {n.lineno})")
+            return n
+    body = [Rw().visit(b) for b in body]
+    body.append(ast.parse("return D").body[0])
+    new = ast.FunctionDef(name="ltf_plan_starts", args=ast.arguments(posonlyargs=[], args=[ast.arg(arg="N"), ast.arg(arg="L_j"), ast.arg(arg="averages")],
+                          kwonlyargs=[], kw_defaults=[], defaults=[]), body=body, decorator_list=[], lineno=loop.lineno)
+    ast.fix_missing_locations(new)
+    new.__dict__["_file"] = fn.__dict__.get("_file", "")
+    return new
+
+
 def gen_sched(repo: str = REPO) -> Tuple[str, List[str]]:
     """the main `while fi < fmax` walk of ltf_plan and new_ltf_plan (statements up to and including the loop),
     returning the five per-bin lists (f, r, b, L, K); the start positions / overlaps are hand-modelled."""
@@ -891,6 +956,18 @@ def gen_sched(repo: str = REPO) -> Tuple[str, List[str]]:
             errors.append(f"{name}: {ex}")
             msg = str(ex).replace("-/", "- /")
             out += f"/- UNSUPPORTED {name}: {msg} -/\ndef {name}_UNSUPPORTED : Nat := translation_failed_{name}\n\n"
+    # the start positions of ltf_plan (the per-bin body of its second loop)
+    try:
+        if "ltf_plan" not in fns:
+            raise Unsupported("function not found")
+        sf = _starts_function(fns["ltf_plan"])
+        tr = FnTranslator(sf, {"N": "Z", "L_j": "Z", "averages": "Z", "D": "LZ"}, {}, "ltf_plan_starts")
+        text, _ = tr.translate()
+        out += text + "\n"
+    except Unsupported as ex:
+        errors.append(f"ltf_plan_starts: {ex}")
+        msg = str(ex).replace("-/", "- /")
+        out += f"/- UNSUPPORTED ltf_plan_starts: {msg} -/\ndef ltf_plan_starts_UNSUPPORTED : Nat := translation_failed_ltf_plan_starts\n\n"
     out += "end Gen\n"
     return out, errors
 
